@@ -96,7 +96,9 @@ pub fn main(args: &[String]) -> i32 {
     let noflush = o.num("noflush", 0u32) == 1;
     let flushpct: u32 = o.num("flushpct", 14);
     let settle_ms: u64 = o.num("settle", 3000);
-    let cc = o.num("cc", 1u32) == 1;
+    // 0: crash images at acknowledgements only; 1: at every device event; 3: as 1, judged only by what
+    // the real recovery returned; 4: at acknowledgements and at journal writes (torn journal slots)
+    let cc: u32 = o.num("cc", 1u32);
     let fault_at: i64 = o.num("faultat", -1i64);
     let fault_mode: u8 = o.num("faultmode", 1u8);
     let fault_from = o.num("faultfrom", 0u32) == 1;
@@ -565,7 +567,7 @@ fn emit_trace(
     max_exh: usize,
     max_images: usize,
     start_now: u64,
-    cc: bool,
+    cc_mode: u32,
     nested_max: usize,
     restart_reports: &[Value],
 ) -> i32 {
@@ -584,11 +586,12 @@ fn emit_trace(
     let rank: HashMap<u64, usize> = times.iter().enumerate().map(|(i, t)| (*t, i + 1)).collect();
     let rk = |t: u64| -> usize { if t == 0 { 0 } else { *rank.get(&t).unwrap_or(&0) } };
 
+    let cc = cc_mode == 1 || cc_mode == 3;
     let mut gens = GenTable::default();
     let mut call_gid: Vec<i64> = vec![-1; calls.len()]; // -1 no change, 0 delete, >0 gen id
     let mut events: Vec<Value> = Vec::new();
     events.push(json!({"e": "init", "ds": 16, "de": total_blocks, "fmt": fmt, "ttl": ttl, "nk": keys.len(),
-                        "now": rk(start_now), "cc": if cc { 1 } else { 0 }}));
+                        "now": rk(start_now), "cc": cc_mode}));
     let mut dev = ConcreteDev::new((total_blocks as usize) * L::BLOCK);
     if fmt < 3 {
         // the legacy device was created by the harness before the store opened it
@@ -688,7 +691,9 @@ fn emit_trace(
             }
             _ => continue,
         }
-        if (cc && (e.kind == "w" || e.kind == "fsync")) || e.kind == "settled" || (!cc && e.kind == "flush_end") {
+        let journal_write = e.kind == "w" && e.a >= L::JOURNAL_START as u64 && e.a < L::META_BACKUP as u64;
+        if (cc && (e.kind == "w" || e.kind == "fsync")) || e.kind == "settled" || (!cc && e.kind == "flush_end")
+            || (cc_mode == 4 && journal_write) {
             let units = dev.units();
             stats_pending_max = stats_pending_max.max(units.len());
             let subs = absdev::subsets(&units, max_exh);
@@ -924,6 +929,8 @@ fn rec_event(c: &Cut, r: &Value, keys: &[Vec<u8>], gens: &GenTable, rk: &dyn Fn(
         "torn": c.torn.iter().map(|(a, b)| vec![*a, *b]).collect::<Vec<_>>(),
         "now": rk(c.now),
         "res": {"ok": r["ok"], "err": r["err"], "kv": kv, "len": r["len"], "extra": r["extra"],
+                "memok": r.get("mem").and_then(|m| m.as_u64()) == r.get("memsum").and_then(|m| m.as_u64()),
+                "mem": r.get("mem").cloned().unwrap_or(json!(0)), "memsum": r.get("memsum").cloned().unwrap_or(json!(0)),
                 "at": keys.iter().enumerate().map(|(i, _)| r["recs"].get(i).and_then(|x| x["at"].as_u64()).unwrap_or(0)).collect::<Vec<_>>(),
                 "free": r.get("free").cloned().unwrap_or(json!([]))}})
 }
@@ -1032,5 +1039,7 @@ fn store_report(store: &FeoxStore, keys: &[Vec<u8>]) -> Value {
         }
     }).collect();
     let extra = snap.iter().filter(|r| !keys.contains(&r.key)).count();
-    json!({"ok": true, "err": "", "recs": recs, "len": store.len(), "extra": extra, "free": store.verif_free_runs()})
+    let memsum: usize = snap.iter().map(|r| FeoxStore::verif_record_overhead() + r.key.len() + r.value_len).sum();
+    json!({"ok": true, "err": "", "recs": recs, "len": store.len(), "extra": extra, "free": store.verif_free_runs(),
+           "mem": store.memory_usage(), "memsum": memsum})
 }
